@@ -51,7 +51,9 @@ def timetable_checks(specs, durs, starts, perm, scope, tol=0.0, cycles=None, con
         (`sc.documented_rule`, a fixed reference copy) declares commuting: that is the class of the C11 known finding
         (no dependency edge, and conflict edges are recorded only against the members of the cycle at the moment a
         candidate is examined -- so it also contains pairs that were candidates in the same round);
-      * two instructions of one cycle must never overlap.
+      * two instructions of one cycle must never overlap;
+      * they truly commute but the DOCUMENTED rule does not declare them commuting (X / RX on one qubit, ...): j must still
+        not start before i has finished (clause dep_respected with the reference rule; evaluated after the physical clauses).
     Scope "full" evaluates ordering for every non-commuting pair and overlap for every pair.
     `cons`: the constraint descriptors the Scheduler was built with (None = default).  The overlap clauses are required when
     `qubit_constraint` is among them (first, last, anywhere); without it only the ordering of non-commuting pairs, the
@@ -99,6 +101,12 @@ def timetable_checks(specs, durs, starts, perm, scope, tol=0.0, cycles=None, con
             else:
                 if scope == "covered" and declared and not sc.conflict_fix_flag():
                     continue        # C11 known class: overlap of a pair declared commuting (tree without the repair)
+                if perm and not declared and starts[j] < starts[i] + durs[i] - tol:
+                    # clause dep_respected with the DOCUMENTED rule (fixed reference copy): the pair commutes physically,
+                    # but the rule does not relate the two gates, so the dependency i -> j has to be there
+                    return (f"instruction {j} ({b[0]} {b[1]} {b[2]}) starts at {starts[j]} before the earlier instruction {i} "
+                            f"({a[0]} {a[1]} {a[2]}; start {starts[i]}, duration {durs[i]}) has finished; the documented rule "
+                            "does not declare the two commuting (clause dep_respected; the two gates commute physically)")
                 if overlap(i, j):
                     return (f"instructions {i} and {j} share qubit(s) {sorted(used[i] & used[j])} and overlap: "
                             f"[{starts[i]}, {starts[i] + durs[i]}) and [{starts[j]}, {starts[j] + durs[j]})")
@@ -395,6 +403,13 @@ class C11(PropertyCheck):
         batch = [(specs_from(seq), [d * sc.DEN for d in durs], m, p, k % 5 == 0)
                  for k, (seq, durs) in enumerate(shapes) for m, p in settings]
         self._flush(ctx, res, batch, "interleaved")
+        # triples on which the rule is not transitive, all orders, priority-flipping duration patterns ---------------------
+        batch = []
+        for k, w in enumerate(self._nontransitive_witnesses()):
+            if ctx.thorough or k % 3 == 0:
+                for p in (True, False):
+                    batch.append((w["ins"], [d * sc.DEN for d in w["durs"]], w["method"], p, k % 7 == 0))
+        self._flush(ctx, res, batch, "nontransitive")
         # constructor arguments: every `method` value x every constraint list on fixed lists, then random ---------------
         batch = []
         for seq, durs in self.CTOR_LISTS:
@@ -583,7 +598,19 @@ class C11(PropertyCheck):
                     yield {"ins": specs_from(seq), "durs": list(durs), "den": 1, "method": m, "perm": p,
                            "shuf": None, "scope": "covered"}
 
+    def _nontransitive_witnesses(self):
+        """all orders of the triples on which the documented rule is not transitive, with duration patterns that give either
+        single-qubit gate the higher priority (ASAP: the later one longer, ALAP: the earlier one longer)"""
+        for seq in sc.nontransitive_shapes():
+            n = len(seq)
+            for d3 in sc.DUR_PATTERNS3:
+                durs = list(d3) + [1] * (n - 3) if seq[0][0] != "SNOT" or n == 3 else [1] + list(d3)
+                for m in ("ASAP", "ALAP"):
+                    yield {"ins": specs_from(seq), "durs": durs[:n], "den": 1, "method": m, "perm": True, "shuf": None,
+                           "scope": "covered"}
+
     def _systematic(self):
+        yield from self._nontransitive_witnesses()
         yield from self._constructor_witnesses()
         yield from self._interleaved_witnesses()
         yield from self._shape_witnesses()
@@ -617,6 +644,11 @@ class C11(PropertyCheck):
     def oracle_always(self, ctx):
         # scope "covered": commutation decided by the matrices; only the two recorded known-finding classes are skipped
         # (see timetable_checks); the other clauses are evaluated for every list.
+        nt = list(self._nontransitive_witnesses())
+        for w in nt[:len(sc.DUR_PATTERNS3) * 2 * 48] + ctx.rng.sample(nt, 300):
+            f, d = self.oracle_replay(ctx, w)
+            if f:
+                yield w, d
         ctor = list(self._constructor_witnesses())
         for w in ctor[:len(sc.METHODS) * len(sc.CONS_LISTS)] + ctx.rng.sample(ctor, 400):
             f, d = self.oracle_replay(ctx, w)
